@@ -1,1 +1,197 @@
-/-! Property theorems for C09 — placeholder until the property's model is built. -/
+import FcpptProofs.C09.ToRoot
+/-!
+# C09 — property theorems
+
+Statement (properties.jsonl): after any sequence of tree operations — also applied to nodes that are children of another
+node — every child's `parent()` refers to the node that lists it as a child, a root has no parent, and no link refers to a
+destroyed node; `pre_order`, `to_root`, `depth`, `level`, `child_position`, `map` and comparison agree with the same
+computations on a plain recursive reference model; copies are deep and independent.
+
+Model: `FcpptModel/Model/C09.lean` (objects with address, `parent_`, by-value child list); reference model: rose trees
+`RT` (`FcpptModel/Spec/C09.lean`).  `Inv` (FcpptProofs/C09/Basic.lean): addresses unique and below `next`, roots have
+`parent_ = nullptr`, `LinkOK` below every root.  Misuse that creates self-ownership is excluded by `Op.guard`.
+-/
+namespace Fcppt.C09
+open PT
+
+/-- a history: every operation is applied to the heap the previous ones produced; excluded misuse stops the run -/
+def runOps : St → List Op → Except Fault St
+  | s, [] => .ok s
+  | s, op :: ops => if op.guard then step s op >>= fun s' => runOps s' ops else .error .oob
+
+def RT.runOps : List RT → List Op → Option (List RT)
+  | F, [] => some F
+  | F, op :: ops => RT.step F op >>= fun F' => RT.runOps F' ops
+
+/-! ## the link invariant holds after every history -/
+
+theorem inv_init : Inv St.init :=
+  ⟨fun _ => by simp [St.init], fun _ _ => by simp [St.init], fun _ h => by simp [St.init] at h⟩
+
+/-- every member function, on a root or an inner node, preserves the invariant -/
+theorem tree_step_inv {s s' : St} {op : Op} (h : Inv s) (hguard : op.guard = true) (hs : step s op = .ok s') : Inv s' :=
+  step_inv h hguard hs
+
+theorem history_inv_from : ∀ (ops : List Op) (s s' : St), Inv s → runOps s ops = .ok s' → Inv s'
+  | [], s, s', h, hr => by simp only [runOps, Except.ok.injEq] at hr; subst hr; exact h
+  | op :: ops, s, s', h, hr => by
+    simp only [runOps] at hr
+    split at hr
+    · rename_i hg
+      obtain ⟨s1, h1, h2⟩ := bind_ok.1 hr
+      exact history_inv_from ops s1 s' (step_inv h hg h1) h2
+    · cases hr
+
+/-- all histories, of any length, over any number of trees -/
+theorem history_inv (ops : List Op) (s : St) (hr : runOps St.init ops = .ok s) : Inv s :=
+  history_inv_from ops St.init s inv_init hr
+
+/-- every child's `parent()` is exactly the node that lists it -/
+theorem child_parent_is_owner {s : St} (h : Inv s) {p : Path} {j : Nat} {n c : PT}
+    (hn : getF p s.forest = some n) (hc : n.kids[j]? = some c) : c.parent = some n.id :=
+  (kidsOK h.roots hn c (List.mem_of_getElem? hc)).1
+
+/-- a root has no parent -/
+theorem root_no_parent {s : St} (h : Inv s) {r : Nat} {t : PT} (ht : s.forest[r]? = some t) : t.parent = none :=
+  (h.roots t (List.mem_of_getElem? ht)).1
+
+/-- no link refers to a destroyed node: a non-null `parent_` is the address of a live object, which is the owner,
+and dereferencing it (`findF`) yields that object -/
+theorem parent_live {s : St} (h : Inv s) {p : Path} {c : PT} {i : Nat}
+    (hc : getF p s.forest = some c) (hp : c.parent = some i) :
+    ∃ q j o, p = q ++ [j] ∧ getF q s.forest = some o ∧ o.id = i ∧ o.kids[j]? = some c ∧ findF i s.forest = some o := by
+  cases p with
+  | nil => simp [getF] at hc
+  | cons r q =>
+    rcases List.eq_nil_or_concat q with rfl | ⟨q', j, rfl⟩
+    · simp only [getF] at hc
+      cases ht : s.forest[r]? with
+      | none => simp [ht] at hc
+      | some t =>
+        simp only [ht, getT, Option.some.injEq] at hc; subst hc
+        rw [root_no_parent h ht] at hp; cases hp
+    · simp only [List.concat_eq_append] at hc ⊢
+      have hcs := hc
+      rw [getF_snoc] at hcs
+      cases ho : getF (r :: q') s.forest with
+      | none => simp [ho] at hcs
+      | some o =>
+        simp only [ho, Option.bind_some] at hcs
+        have := child_parent_is_owner h ho hcs
+        rw [hp, Option.some.injEq] at this
+        exact ⟨r :: q', j, o, rfl, ho, this.symm, hcs, this ▸ findF_of_get h.uniq ho⟩
+
+/-- addresses identify objects: two live objects with the same address are the same sub-object -/
+theorem address_unique {s : St} (h : Inv s) {p q : Path} {x y : PT}
+    (hx : getF p s.forest = some x) (hy : getF q s.forest = some y) (he : x.id = y.id) : p = q :=
+  getF_inj h.uniq hx hy he
+
+/-! ## refinement: the heap denotes the forest the abstract operation yields -/
+
+theorem tree_refines {s s' : St} {op : Op} (hs : step s op = .ok s') :
+    RT.step (absF s.forest) op = some (absF s'.forest) :=
+  step_refines hs
+
+theorem history_refines_from : ∀ (ops : List Op) (s s' : St), runOps s ops = .ok s' →
+    RT.runOps (absF s.forest) ops = some (absF s'.forest)
+  | [], s, s', hr => by simp only [runOps, Except.ok.injEq] at hr; subst hr; rfl
+  | op :: ops, s, s', hr => by
+    simp only [runOps] at hr
+    split at hr
+    · obtain ⟨s1, h1, h2⟩ := bind_ok.1 hr
+      simp [RT.runOps, step_refines h1, history_refines_from ops s1 s' h2]
+    · cases hr
+
+theorem history_refines (ops : List Op) (s : St) (hr : runOps St.init ops = .ok s) :
+    RT.runOps [] ops = some (absF s.forest) :=
+  history_refines_from ops St.init s hr
+
+/-! ## observers = reference computations -/
+
+/-- `pre_order` (explicit stack) visits the values in recursive pre-order -/
+theorem pre_order_eq (t : PT) : preOrder t = .ok (RT.flatten (abs t)) := preOrder_eq t
+
+/-- `to_root` from the node at path `p` yields the node and its ancestors, root last -/
+theorem to_root_eq {s : St} (h : Inv s) {p : Path} {x : PT} (hx : getF p s.forest = some x) :
+    toRoot s.forest x = .ok (RT.ancestors p (absF s.forest)) :=
+  toRoot_eq h.uniq h.roots hx
+
+theorem level_eq' {s : St} (h : Inv s) {p : Path} {x : PT} (hx : getF p s.forest = some x) :
+    level s.forest x = .ok (RT.level p) :=
+  level_eq h.uniq h.roots hx
+
+theorem depth_eq' (t : PT) : depth t = RT.depth (abs t) := depth_eq t
+
+theorem child_position_eq {s : St} (h : Inv s) {p c : Path} {P C : PT}
+    (hp : getF p s.forest = some P) (hc : getF c s.forest = some C) : childPosition P C = RT.childPos p c :=
+  childPosition_eq h.uniq hp hc
+
+/-- `map` builds a tree with consistent links that denotes the mapped rose tree -/
+theorem map_eq (f : Int → Int) (n : Nat) (t : PT) :
+    abs (mapT f n t) = RT.map f (abs t) ∧ (mapT f n t).parent = none ∧ LinkOK (mapT f n t) :=
+  ⟨abs_mapT f t n, mapT_parent f n t, linkOK_mapT f t n⟩
+
+/-- `operator==` decides equality of the denoted rose trees (addresses and links play no role) -/
+theorem eq_iff (a b : PT) : eqT a b = true ↔ abs a = abs b := eqT_iff a b
+
+/-! ## copies are deep and independent -/
+
+/-- a copy denotes the same rose tree, consists of fresh objects only (shares no object with anything live),
+has consistent links and no parent -/
+theorem copy_independent {s : St} (h : Inv s) (t : PT) :
+    abs (copyT s.next t) = abs t ∧ (∀ i, 1 ≤ cntL i s.forest → cnt i (copyT s.next t) = 0) ∧
+      (∀ i, cnt i (copyT s.next t) ≤ 1) ∧ (copyT s.next t).parent = none ∧ LinkOK (copyT s.next t) := by
+  refine ⟨abs_copyT t s.next, fun i hi => ?_, fun i => ?_, copyT_parent _ _, linkOK_copyT _ _⟩
+  · have := h.fresh i
+    rw [cnt_copyT, if_neg]; omega
+  · rw [cnt_copyT]; split <;> omega
+
+/-- later operations on the copy do not change the original (and vice versa): a write below one root leaves every
+other root untouched -/
+theorem write_local (new : PT) (r : Nat) (q : Path) (F : List PT) (r' : Nat) (hne : r' ≠ r) :
+    (putF new (r :: q) F)[r']? = F[r']? := by
+  simp only [putF]
+  cases F[r]? with
+  | none => rfl
+  | some t => exact List.getElem?_set_ne (Ne.symm hne)
+
+/-! ## non-vacuity and the repaired defect -/
+
+/-- a history with inner-node operands of every binary kind runs to completion (so the theorems above are not vacuous) -/
+example : (runOps St.init
+    [.new 1, .insV [0] .back 2, .insV [0, 0] .back 3, .insV [0] .front 4, .copyCtor [0],
+     .swap [0, 1] [1], .moveAssign [1, 0] [0, 1], .copyAssign [1, 0, 1] [1], .insT [1] (.at 1) [0, 1],
+     .pop [0] .back true, .moveCtor [0, 0], .erase [1] 0, .clear [2], .eraseRange [0] 0 1, .setVal [1, 0] 7,
+     .del 0]).toBool = true := by decide +kernel
+
+/-- the unrepaired `swap` (before 05c8c12): values and `parent_` exchanged, child lists exchanged without re-parenting -/
+def oldSwap (ta tb : PT) : PT × PT :=
+  (.node ta.id tb.val tb.parent tb.kids, .node tb.id ta.val ta.parent ta.kids)
+
+/-- old behaviour, refuted: swapping the inner node `0.0` with the root `1` broke every clause of the invariant -/
+example :
+    let B : PT := .node 1 20 (some 0) [.node 2 30 (some 1) []]
+    let D : PT := .node 3 40 none [.node 4 50 (some 3) []]
+    ¬ Roots [.node 0 10 none [(oldSwap B D).1], (oldSwap B D).2] := by
+  intro B D h
+  have := (h (oldSwap B D).2 (by simp)).1
+  simp [oldSwap, B, D] at this
+
+/-- the repaired `swap` on the same heap keeps the invariant (instance of `tree_step_inv`) -/
+example : ∀ s', step ⟨[.node 0 10 none [.node 1 20 (some 0) [.node 2 30 (some 1) []]],
+    .node 3 40 none [.node 4 50 (some 3) []]], 5⟩ (.swap [0, 0] [1]) = .ok s' → Roots s'.forest := by
+  intro s' hs
+  simp [step, nodeAt, getF, getT, putF, putT, reparent, bind, Except.bind] at hs
+  subst hs
+  intro r hr
+  simp at hr
+  rcases hr with rfl | rfl <;> simp [linkOK_node]
+
+/-- old copy assignment set the receiver's `parent_` to `nullptr`: refuted for a receiver that is a child -/
+example : ¬ Roots [.node 0 10 none [(PT.node 1 20 (some 0) []).setParent none]] := by
+  intro h
+  have h1 := (h _ (List.mem_singleton.2 rfl)).2
+  have := (linkOK_node.1 h1 _ (List.mem_singleton.2 rfl)).1
+  simp at this
+
+end Fcppt.C09
